@@ -61,17 +61,31 @@ def resolve(ev, rem, pos, segs):
 STDIN_ERRORS = ('EOFError', 'RuntimeError', 'OSError', 'ValueError')
 
 
-def run_history(case, root, u, schedules, name='h', base_args=('-r', 'T')):
-    """Runs the history; raises Violation. Returns a summary dict (for classification)."""
+# pairs of session names (main, neighbour) that live side by side in the tool's folder: related stems, dots, trailing letters of
+# '.sav', spaces, non-ASCII
+SESSION_PAIRS = [['h', 'h2'], ['run', 'runs'], ['runs', 'run'], ['crack.alpha', 'crack.beta'], ['run.1', 'run.2'], ['data', 'dat'],
+                 ['canvas', 'can'], ['s', 'a'], ['my run', 'my'], ['ses\u00e9', 'ses'], ['x.sav', 'x']]
+
+
+def run_history(case, root, u, schedules, name=None, base_args=('-r', 'T')):
+    """Runs the history; raises Violation. Returns a summary dict (for classification).
+
+    case['sessions'] = [main, neighbour] names the session and, optionally with case['neighbour_quits'], lets ANOTHER session of the
+    same ruleset (fresh, its own quit points) run between two runs of the main one; nothing of it may leak into the main session."""
+    pair = case.get('sessions') or ['h', None]
+    name = name or pair[0]
+    neighbour = pair[1] if len(pair) > 1 else None
+    nq = list(case.get('neighbour_quits') or [])
     U = u.lines
     segs = segments(u)
     probs = [p for _, p in u.pops]
     distinct = len(set(probs)) == len(probs)
-    for f in (name + '.sav', name + '.omn'):
-        try:
-            os.remove(os.path.join(root, f))
-        except FileNotFoundError:
-            pass
+    for nm in (name, neighbour):
+        for f in ((nm + '.sav', nm + '.omn') if nm else ()):
+            try:
+                os.remove(os.path.join(root, f))
+            except FileNotFoundError:
+                pass
     rem, pos = [], 0
     emitted = Counter()
     saved_positions = []
@@ -84,7 +98,7 @@ def run_history(case, root, u, schedules, name='h', base_args=('-r', 'T')):
     while True:
         ev = scheds[ri] if ri < len(scheds) else []
         ev = resolve(ev, rem, pos if distinct else 0, segs)
-        r = guard(case, session.run_main, root, args, ev, clock_step=case.get('clock_step'))
+        r = guard(case, session.run_main, root, args, ev, clock_step=case.get('clock_step'), stdin_isatty=case.get('stdin_isatty'))
         if r.error:
             raise Violation('crash:main', f'run {ri}: main() ended with {r.error}; stderr tail: {r.stderr[-300:]}', case)
         args = list(base_args) + ['-s', name, '--load']
@@ -129,6 +143,23 @@ def run_history(case, root, u, schedules, name='h', base_args=('-r', 'T')):
                                 f'events {r.delivered}', case)
             if len(L) == len(E):
                 finished = True
+                if delivered_quit and len(quit_ev) <= 5:
+                    # the whole stream was written although a quit request had reached the keyboard thread: fine only if the
+                    # request arrived while the last pre-terminal was in progress (or later)
+                    ng = quit_ev[3][1]
+                    if quit_ev[0][0] in ('guess', 'omen_next'):
+                        ngs = ng + 1 if quit_ev[0][0] == 'omen_next' else ng
+                        if ngs <= len(rem):
+                            limit = len(rem)
+                        else:
+                            jpos = pos + ngs - len(rem)
+                            js = next(((s_, e_) for s_, e_, mk, _ in segs if s_ < jpos <= e_), None)
+                            limit = len(rem) + (js[1] - pos) if js else len(L)
+                    else:
+                        limit = ng
+                    if len(L) > limit and len(E) > limit:
+                        raise Violation('quit_ignored', f'run {ri}: a quit request reached the keyboard thread after guess {ng} ({quit_ev[0]}) but the run went on '
+                                        f'to the end of the stream ({len(L)} lines; the pre-terminal in progress ended at {limit}); events {r.delivered}', case)
             elif not delivered_quit:
                 raise Violation('stream_shortened', f'run {ri} stopped after {len(L)} of {len(E)} lines although no quit was requested; '
                                 f'events {r.delivered}', case)
@@ -202,6 +233,14 @@ def run_history(case, root, u, schedules, name='h', base_args=('-r', 'T')):
                 if new_pos <= s < bound and p != sp:
                     raise Violation('repeat_not_tied', f'run {ri}: saved position {sp!r} makes the resume repeat a pre-terminal of probability {p!r}', case)
             pos = new_pos
+        if neighbour and nq:
+            # the neighbour session: started fresh, quits at its own point (or runs to the end), saved next to the main one
+            k = nq.pop(0)
+            nev = [(('guess', k), 'q')] if k else []
+            nr = guard(case, session.run_main, root, list(base_args) + ['-s', neighbour], nev)
+            if nr.error:
+                raise Violation('crash:main', f'neighbour session {neighbour!r}: main() ended with {nr.error}; stderr tail: {nr.stderr[-300:]}', case)
+            summary['neighbour_runs'] = summary.get('neighbour_runs', 0) + 1
         ri += 1
         if ri > len(scheds) + 2:
             raise Violation('never_finishes', f'history needs more than {ri} runs without any further quit', case)
